@@ -124,7 +124,6 @@ func Analyze(events []Event, meta []MsgMeta, max int) *Analysis {
 		case EvReadReturn:
 			curK = e.K
 			a.ReturnSeq[e.K] = e.Seq
-			m := metaOf(e.K)
 			delete(endedIDs, e.ID)
 			winDup, winCnt, winErr, winUnsubs, winSubs = nil, len(live), 0, 0, 0
 			switch e.Type {
@@ -138,7 +137,6 @@ func Analyze(events []Event, meta []MsgMeta, max int) *Analysis {
 				winDup = live[e.ID]
 				delete(deadSince, e.ID)
 			}
-			_ = m
 		case EvReadEnter:
 			if e.K > 0 {
 				prev := e.K - 1
@@ -212,7 +210,7 @@ func Analyze(events []Event, meta []MsgMeta, max int) *Analysis {
 					cause = "unsubscribe"
 				case a.firstEnvelopeIsError(inst):
 					cause = "own-failure"
-				case mutIDs[e.ID]:
+				case inst.CollidedBy != 0:
 					cause = "mutation-id-collision"
 				case a.CtxCancelSeq >= 0:
 					cause = "ctx-cancel"
@@ -233,16 +231,24 @@ func Analyze(events []Event, meta []MsgMeta, max int) *Analysis {
 		case EvWrite:
 			id := e.ID
 			inst := live[id]
+			m := metaOf(curK)
+			sync := curK >= 0 && m.ID == id
+			if sync && e.Type == "error" {
+				winErr++
+			}
+			// An error envelope written while a message with the same id is
+			// being handled answers that message, not the subscription that
+			// owns the id (first such envelope of the window; messages that
+			// never answer with an error excepted).
+			if inst != nil && sync && e.Type == "error" && inst.MsgK != curK && winErr == 1 &&
+				m.Type != "echo" && m.Type != "unsubscribe" {
+				inst = nil
+			}
 			if inst != nil {
 				inst.Envelopes = append(inst.Envelopes, e.Seq)
 			}
 			if served {
 				a.anomaly("write-after-serve-return", e.Seq, id, endedIDs[id], e.Type)
-			}
-			m := metaOf(curK)
-			sync := curK >= 0 && m.ID == id
-			if sync && e.Type == "error" {
-				winErr++
 			}
 			if inst == nil {
 				if ended := endedIDs[id]; ended != nil && !served && e.Type != "echo" && !(openMut[id] > 0 && e.Type != "update") {
@@ -266,7 +272,7 @@ func Analyze(events []Event, meta []MsgMeta, max int) *Analysis {
 				if !(sync || inst != nil || openMut[id] > 0) {
 					a.anomaly("error-for-unknown-id", e.Seq, id, nil, "error envelope for an id that is neither being handled, nor live, nor a mutation in flight")
 				}
-				if openMut[id] > 0 && !(sync && m.Type != "mutate") && !(inst != nil && len(inst.Envelopes) == 1 && !mutIDs[id]) {
+				if openMut[id] > 0 && !(sync && m.Type != "mutate") && (inst == nil || sync) {
 					openMut[id]--
 				}
 			}
